@@ -2,6 +2,7 @@
 //   once : seed T nthrow inner -> collaborative_call_once by T threads, the first nthrow attempts of the function throw
 //   ets  : seed T rounds      -> enumerable_thread_specific / combinable with T threads arriving together
 #include "common.h"
+#include <chrono>
 #include <random>
 #include <set>
 #include <mutex>
@@ -138,6 +139,49 @@ static int do_etsclear() {
     return 0;
 }
 
+// mode "etscopy": a container that holds the elements of N = 1..9 threads is COPIED (copy construction / copy assignment / copy through combinable); then N + 3 further
+// threads (all alive at the same time, so their ids are distinct) access the copy one after the other: each must get its element within 4 s, elements are distinct, size()
+// counts them, and no array of the copy's table is filled above one half (white box: the invariant that ends every probe).   input: seed N how(0 copy-ctor, 1 copy=, 2 combinable copy)
+// output: STUCK a SHARED b SIZE c DENSE d
+static int do_etscopy() {
+    std::vector<i128> c; Out o;
+    while (read_case(c)) {
+        int N = (int)c[1], how = (int)c[2]; int total = 2 * N + 3;
+        typedef tbb::enumerable_thread_specific<long> ETS;
+        ETS src([] { return 0L; }); tbb::combinable<long> csrc([] { return 0L; });
+        ETS* cp = nullptr; tbb::combinable<long>* ccp = nullptr;
+        std::mutex m; std::condition_variable cv; int turn = -1; bool quit = false; std::vector<int> donef(total, 0); std::vector<long*> addr(total, nullptr);
+        std::vector<std::thread> th;
+        for (int t = 0; t < total; ++t) th.emplace_back([&, t] {
+            std::unique_lock<std::mutex> lk(m); cv.wait(lk, [&] { return quit || turn == t; }); if (quit) return; lk.unlock();
+            long* p;
+            if (t < N) { src.local() += 1; csrc.local() += 1; p = &src.local(); }
+            else if (how == 2) { ccp->local() += 1; p = &ccp->local(); }
+            else { cp->local() += 1; p = &cp->local(); }
+            lk.lock(); addr[t] = p; donef[t] = 1; cv.notify_all();
+            cv.wait(lk, [&] { return quit; });                     // stay alive: the thread id must not be reused
+        });
+        long stuck = 0;
+        auto run_turn = [&](int t) { std::unique_lock<std::mutex> lk(m); turn = t; cv.notify_all(); return cv.wait_for(lk, std::chrono::seconds(4), [&] { return donef[t] == 1; }); };
+        for (int t = 0; t < N; ++t) if (!run_turn(t)) stuck++;
+        ETS copy1(src); ETS copy2([] { return 0L; }); copy2 = src; tbb::combinable<long> ccopy(csrc);
+        cp = how == 0 ? &copy1 : &copy2; ccp = &ccopy;
+        for (int t = N; t < total && !stuck; ++t) if (!run_turn(t)) stuck++;
+        if (stuck) { o.word("STUCK"); o.put(stuck); o.word("SHARED"); o.put(0); o.word("SIZE"); o.put(0); o.word("DENSE"); o.put(0); o.flush(); std::_Exit(0); }
+        std::set<long*> distinct(addr.begin() + N, addr.end());
+        long shared = (long)(total - N) - (long)distinct.size();
+        long sizebad = 0, dense = 0;
+        if (how != 2) {
+            if ((long)cp->size() != (long)total) sizebad++;
+            for (auto* a = cp->my_root.load(); a; a = a->next) { size_t used = 0; for (size_t i = 0; i < a->size(); ++i) if (!a->at(i).empty()) used++; if (2 * used > a->size()) dense++; }
+        } else { long sum = ccp->combine([](long a, long b) { return a + b; }); if (sum != (long)total) sizebad++; }
+        { std::lock_guard<std::mutex> lk(m); quit = true; cv.notify_all(); }
+        for (auto& x : th) x.join();
+        o.word("STUCK"); o.put(0); o.word("SHARED"); o.put(shared); o.word("SIZE"); o.put(sizebad); o.word("DENSE"); o.put(dense); o.flush();
+    }
+    return 0;
+}
+
 // etsgrow: the growth window of the thread-id table.  An allocator passed to enumerable_thread_specific holds every thread that
 // allocates a table array (it has incremented my_count and read my_root, it has not yet published its array) until K threads are
 // inside, then releases them together: K threads grow the table at once, from a root that is 0-3 first accesses old.  Then every
@@ -249,6 +293,7 @@ int main(int argc, char** argv) {
     std::string m = argc > 1 ? argv[1] : "";
     if (m == "etsseq") return do_etsseq();
     if (m == "once") return do_once();
+    if (m == "etscopy") return do_etscopy();
     if (m == "etsclear") return do_etsclear();
     if (m == "etsgrow") return do_etsgrow();
     if (m == "ets") return do_ets();
